@@ -192,15 +192,18 @@ Example C05_flip_in_segment_ex :
   replay_ops true 1 0 (damaged rb_log 32 [0]) = (VCorrupt, []) /\ replay_ops true 1 0 rb_log = (VOk, [AWrite 0 [1]; AWrite 1 [2;2;2;2]; AWrite 5 [3]]).
 Proof. vm_compute. repeat split; try reflexivity; discriminate. Qed.
 
-(* ... and the third escape is real (known finding C05-reset-mark-bypass, replayed on the library by checks/C05.py):
-   36 covered bytes overwritten by reset records and a segment header with checksum 0: rc 0, the first two synced
-   operations are skipped, the third is applied *)
+(* ... and the third escape is real (finding reset-mark-bypass, replayed on the library by checks/C05.py): 36 covered bytes
+   overwritten by reset records and a segment header with checksum 0: rc 0, the first two synced operations are skipped, the
+   third is applied.  reset_prefix_verified = regenerated fact: whether the replay checks the segments in front of a reset
+   mark before it restarts there (0 on the current tree; fixes/wal-reset-prefix-verified.diff makes it 1 and the same
+   bytes are then reported as CORRUPTED_WAL) *)
 Theorem C05_reset_mark_bypass_refuted :
   (encode rb_R = rb_log /\ wf_log rb_R = true /\ crc_full rb_R = true /\ no_reset rb_R = true /\
    sp_offsets rb_R 0 = [33; 81; 126] /\ map rec_size (firstn 4 rb_R) = [12; 21; 12; 12] /\
    match nth 3 rb_R RReset with RSep crc len => negb (crc =? 0) && (len =? 36) | _ => false end = true) /\
   length rb_X' = 36%nat /\ scan rb_L' = (126, 89) /\
-  rb_view (recover true 1 0 rb_L' rb_main) = (VOk, [AWrite 5 [3]], 0, 3) /\
+  (reset_prefix_verified = false -> rb_view (recover true 1 0 rb_L' rb_main) = (VOk, [AWrite 5 [3]], 0, 3)) /\
+  (reset_prefix_verified = true -> fst (replay_ops true 1 0 rb_L') = VCorrupt) /\      (* with fixes/wal-reset-prefix-verified.diff *)
   rb_view (recover true 1 0 rb_log rb_main) = (VOk, [AWrite 0 [1]; AWrite 1 [2;2;2;2]; AWrite 5 [3]], 1, 3).
 Proof. exact reset_mark_bypass_refuted. Qed.
 Print Assumptions C05_reset_mark_bypass_refuted.
